@@ -253,17 +253,29 @@ def main():
             ck.inconclusive("translator validation mismatch: entries=%s lookup=%s real=%s encoded=%s" % (entries, lookup, real_id, enc_id))
     # ---- query-level clause: enumerated negative programs through the real compiler
     tables = [dict(name="t", size=3, fields=[dict(name="id", dt=driver.t_int((0, 9))), dict(name="x", dt=driver.t_int((0, 9)))]),
-              dict(name="u", size=3, fields=[dict(name="id", dt=driver.t_int((0, 9))), dict(name="y", dt=driver.t_int((0, 9)))])]
+              dict(name="u", size=3, fields=[dict(name="id", dt=driver.t_int((0, 9))), dict(name="y", dt=driver.t_int((0, 9)))]),
+              dict(name="w", size=3, fields=[dict(name="id", dt=driver.t_int((0, 9))), dict(name="z", dt=driver.t_int((0, 9)))]),
+              dict(name="v", size=3, fields=[dict(name="id", dt=driver.t_int((0, 9))), dict(name="q", dt=driver.t_int((0, 9)))])]
     progs = [("SELECT id FROM t JOIN u ON t.id = u.id", "ambiguous"), ("SELECT id FROM t, u", "ambiguous"), ("SELECT x, id FROM t LEFT JOIN u ON t.x = u.y", "ambiguous"),
              ("SELECT id FROM t JOIN u USING (id)", "resolved"), ("SELECT id FROM t NATURAL JOIN u", "resolved"), ("SELECT t.id FROM t JOIN u ON t.id = u.id", "resolved"),
-             ("SELECT a.id FROM t AS a JOIN t AS b ON a.id = b.id", "resolved"), ("SELECT id FROM t AS a JOIN t AS b ON a.id = b.id", "ambiguous")]
+             ("SELECT a.id FROM t AS a JOIN t AS b ON a.id = b.id", "resolved"), ("SELECT id FROM t AS a JOIN t AS b ON a.id = b.id", "ambiguous"),
+             # the same name in two, three and four joined relations, directly and through SELECT * of a CTE / derived table
+             ("WITH j AS (SELECT * FROM t JOIN u ON t.id = u.id) SELECT id FROM j", "ambiguous"),
+             ("SELECT id FROM t JOIN u ON t.id = u.id JOIN w ON u.id = w.id", "ambiguous"),
+             ("WITH j AS (SELECT * FROM t JOIN u ON t.id = u.id JOIN w ON u.id = w.id) SELECT id FROM j", "ambiguous"),
+             ("SELECT id FROM (SELECT * FROM t JOIN u ON t.id = u.id JOIN w ON u.id = w.id) AS j", "ambiguous"),
+             ("WITH j AS (SELECT * FROM t JOIN u ON t.id = u.id JOIN w ON u.id = w.id JOIN v ON w.id = v.id) SELECT id FROM j", "ambiguous"),
+             ("WITH j AS (SELECT * FROM t JOIN u ON t.id = u.id JOIN w ON u.id = w.id) SELECT x, y, z FROM j", "resolved"),
+             ("SELECT w.id FROM t JOIN u ON t.id = u.id JOIN w ON u.id = w.id", "resolved")]
     neg = []
     for sql, expect in progs:
         ans = d.call(dict(op="relation", tables=tables, sql=sql))
         outcome = "refused" if ("err" in ans or "panic" in ans) else "accepted"
         neg.append(dict(sql=sql, expect=expect, outcome=outcome, detail=(ans.get("err") or ans.get("panic") or "")[:120]))
         if expect == "ambiguous" and outcome == "accepted":
-            ck.violation("query=ambiguous-column-bound", "`%s` is accepted although `id` is present on both sides of the join" % sql, dict(sql=sql))
+            ck.violation("query=ambiguous-column-bound", "`%s` is accepted although `id` names a column of several joined relations" % sql, dict(sql=sql))
+        if expect == "resolved" and outcome == "refused" and "panic" not in ans:
+            ck.note("`%s` has one resolution but is refused: %s" % (sql, (ans.get("err") or "")[:120]))
     d.close()
     TVPOOL.close()
     n1 = sum(1 for q in queries if q["id"].startswith("Q1/"))
